@@ -19,6 +19,7 @@ struct S {
 	std::string trace;
 	uint64_t h = 0;
 	int switches = 0;
+	unsigned ser_rot = 0;
 	bool was_big = false, shrunk0 = false, grow_after0 = false, failed_set = false;
 	S(Ctx &c) : ctx(c) {}
 	void log(const std::string &s)
@@ -71,13 +72,24 @@ struct S {
 			ctx.fail("copy", "deep copy does not carry all " + str(model.size()) + " bytes of " + quote(model, 80));
 		json_object_put(cp);
 		// serialisation through the independent parser
-		size_t sl = 0;
-		const char *t = json_object_to_json_string_length(j, JSON_C_TO_STRING_PLAIN, &sl);
-		if (!t)
-			ctx.fail("serialize", "NULL text");
-		RefResult r = ref_parse(std::string(t, sl));
-		if (!r.ok || r.v.k != Val::Str || r.v.s != model)
-			ctx.fail("serialize", "serialisation " + quote(std::string(t, sl), 120) + " does not denote the " + str(model.size()) + " bytes " + quote(model, 80));
+		// (every flag combination without the colour escapes; the rotating one covers them all over a history)
+		static const int fl[] = {JSON_C_TO_STRING_PLAIN, JSON_C_TO_STRING_SPACED, JSON_C_TO_STRING_PRETTY, JSON_C_TO_STRING_NOZERO, JSON_C_TO_STRING_NOSLASHESCAPE,
+		                         JSON_C_TO_STRING_NOSLASHESCAPE | JSON_C_TO_STRING_PRETTY, JSON_C_TO_STRING_NOSLASHESCAPE | JSON_C_TO_STRING_SPACED | JSON_C_TO_STRING_NOZERO,
+		                         JSON_C_TO_STRING_PRETTY | JSON_C_TO_STRING_PRETTY_TAB | JSON_C_TO_STRING_SPACED};
+		int rot = fl[ser_rot++ % 8];
+		for (int flags : {(int)JSON_C_TO_STRING_PLAIN, rot})
+		{
+			size_t sl = 0;
+			const char *t = json_object_to_json_string_length(j, flags, &sl);
+			if (!t)
+				ctx.fail("serialize", "NULL text");
+			if (strlen(t) != sl)
+				ctx.fail("serialize", "reported length " + str(sl) + " but the text has " + str(strlen(t)) + " bytes (flags " + str(flags) + ")");
+			RefResult r = ref_parse(std::string(t, sl));
+			if (!r.ok || r.v.k != Val::Str || r.v.s != model)
+				ctx.fail("serialize", "serialisation with flags " + str(flags) + " " + quote(std::string(t, sl), 120) + " does not denote the " + str(model.size()) + " bytes " +
+				                          quote(model, 80));
+		}
 	}
 };
 
@@ -101,6 +113,13 @@ static size_t pick_len(Choices &c, size_t cur)
 static std::string fill(Choices &c, size_t n, bool allow_nul)
 {
 	std::string s = c.bytes(std::min<size_t>(n, 12));
+	if (c.coin(35))
+	{
+		// the bytes the serialiser treats specially, in any order
+		static const char sp[] = {'/', '"', '\\', '\b', '\n', '\t', 1, 0x1f, 0x7f, (char)0x80, (char)0xff, 0, 'a', '/'};
+		for (auto &ch : s)
+			ch = sp[c.pickn(sizeof sp)];
+	}
 	s.resize(n, 'q');
 	for (size_t i = 12; i < n; i++)
 		s[i] = (char)('a' + i % 23);
@@ -119,6 +138,7 @@ void run_case(Choices &c, Ctx &ctx)
 	if (ctx.mode == "lens")
 	{
 		uint64_t idx = c.bits(8);
+		s.ser_rot = (unsigned)idx;
 		size_t a = idx % 40, b = idx / 40 % 40, d = idx / 1600;
 		std::string A(a, 'A'), B(b, 'B'), D(d, 'D');
 		if (a > 2)
@@ -161,6 +181,7 @@ void run_case(Choices &c, Ctx &ctx)
 			ctx.fail("create", "constructor returned NULL");
 		s.verify("create");
 	}
+	s.ser_rot = (unsigned)c.pickn(8);
 	size_t nops = 1 + c.len(30);
 	for (size_t i = 0; i < nops; i++)
 	{
